@@ -8,7 +8,14 @@ ChordCases == {[kind |-> "chord", sh |-> s, root |-> r, k |-> k,
                   s \in Shs, r \in Roots, k \in 0..6}
 \* chords of the formula table that no documented shorthand builds (theory chords): shape / acceptance clauses only
 TheoryCases == {[kind |-> "theory", chord |-> Rotate(RefChord(m, r), k)] : m \in {"major eleventh"}, r \in N21, k \in 0..5}
-Cases == TheoryCases \cup {c \in ChordCases : c.k <= Len(Formula(Meaning(c.sh)))} \cup
+\* extended chords: every chord of five or more notes with one further note inserted at any position (stacks of thirds with the
+\* missing member put back, clusters), in every rotation: shape / no-raise / acceptance clauses only
+Big == {s \in Shs : Len(Formula(Meaning(s))) >= 4}
+InsAt(ch, i, x) == SubSeq(ch, 1, i) \o <<x>> \o SubSeq(ch, i + 1, Len(ch))
+ExtRoots == {<<"C">>, <<"F", "#">>, <<"B", "b">>}
+ExtendedCases == {[kind |-> "extended", chord |-> LET b == RefChord(Meaning(s), r) IN Rotate(InsAt(b, IF i <= Len(b) THEN i ELSE Len(b), x), k)] :
+                    s \in Big, r \in ExtRoots, x \in N21, i \in 3..6, k \in 0..7}
+Cases == TheoryCases \cup {c \in ExtendedCases : \A j \in 1..Len(c.chord) : \A j2 \in 1..Len(c.chord) : j # j2 => c.chord[j] # c.chord[j2]} \cup {c \in ChordCases : c.k <= Len(Formula(Meaning(c.sh)))} \cup
          (IF WithTriples THEN {[kind |-> "triple", chord |-> <<a, b, c>>] : a \in N21, b \in N21, c \in N21} ELSE {}) \cup
          {[kind |-> "small", chord |-> ch] : ch \in {<<>>} \cup {<<a>> : a \in N21} \cup {<<a, b>> : a \in N21, b \in N21}}
 VARIABLE done
